@@ -157,6 +157,7 @@ func (e *Engine) intrinsic(st *State, f *Frame, fn *ssa.Function, args []Value, 
 			cur = c64(0)
 		}
 		st.ghost[k] = Sub(cur, c64(1))
+		e.parProgress(st)
 		st.events = append(st.events, Event{name: "wg.Done", s: "wg.Done " + e.lockName(st, p)})
 		return ret(nil), true
 	case "(*sync.WaitGroup).Wait":
@@ -165,6 +166,7 @@ func (e *Engine) intrinsic(st *State, f *Frame, fn *ssa.Function, args []Value, 
 			return ret(nil), true
 		}
 		{
+			e.parYield(st, "wg.Wait")
 			p := args[0].(*PtrVal)
 			cur := st.ghost["wg:"+e.lockKey(st, p)]
 			if cur != nil {
@@ -540,8 +542,12 @@ func (e *Engine) harnessIntrinsic(st *State, f *Frame, fn *ssa.Function, name st
 		}
 		return ret(a.off)
 	case "vLocksHeld":
+		// mutexes held by the running goroutine
 		n := 0
-		for _, c := range st.locks {
+		for k, c := range st.locks {
+			if st.par != nil && st.lockOwner[k] != st.par.cur+1 {
+				continue
+			}
 			n += c
 		}
 		return ret(c64(int64(n)))
@@ -597,7 +603,11 @@ func (e *Engine) harnessIntrinsic(st *State, f *Frame, fn *ssa.Function, name st
 		return ret(nil)
 	case "vMutexFree":
 		p := args[0].(*PtrVal)
-		return ret(Bool(st.locks[e.lockKey(st, p)] == 0))
+		k := e.lockKey(st, p)
+		if st.par != nil && st.lockOwner[k] != st.par.cur+1 {
+			return ret(tTrue) // held (if at all) by the other goroutine: not this goroutine's leak
+		}
+		return ret(Bool(st.locks[k] == 0))
 	case "vHavocChan":
 		id := st.newObj(&ChanContent{havoc: true}, nil, "havoc-chan")
 		return ret(&ChanVal{obj: id})
